@@ -16,6 +16,8 @@ CLAIMS = {
          "Lean 4 proof (exchange argument against arbitrary bases) + trace validation + independent optimum", "§5 C02"),
  "C03": ("proof", "Lean 4 theorems quantified over ALL schedules (Sched: any partition, any seq/fork grouping seeded with the identity, any order-preserving join tree; ForSched: any tiling in any execution order): the min-reduction returns the optimum weight under the sequential search contract, the three cycle_min joins are associative on weights with not-found as identity and left preference, the support update equals the sequential loop, concurrent push_back initialisation yields a permutation of the unit vectors (and the de Pina theorems hold from any such start), the weight reduction returns the sum, task footprints of every parallel region are conflict-free. Correspondence: the REAL library templates run under seeded schedules of a deterministic TBB stand-in placed first on the include path (random, fully sequential and maximally split schedules), every run trace-validated against the literal model including the observed push_back order; plus real oneTBB with 1/2/4/16 threads and (thorough) ThreadSanitizer as supporting evidence.",
          "Lean 4 proof (induction over schedule trees / tilings) + trace validation under a controllable scheduler", "§5 C03"),
+ "C04": ("proof", "Lean 4 theorems for every communicator size P >= 1 and every amount of work: the ceil-stride slices of the ranks partition [0,total) (P not dividing total, P > total, total = 0 included), the MPI minimum operator is associative/commutative on weights with not-found as identity, any per-rank TBB schedules combined along any reduction tree over the ranks deliver the optimum weight under the sequential search contract, all ranks execute the same collective script, and — after the repair — the ranks together search exactly the (edge, hidden set) pairs of the sequential heuristic when they share the enumeration order (with per-rank orders an edge can stay unsearched: counterexample theorem for the pinned code). Correspondence: the real entry points under mpiexec -n P (P in 1,2,3,5 quick; up to 8 thorough) with per-rank heap perturbation so that pointer orders differ between ranks, rank-0 output trace-validated and judged by the C01/C02 oracle, other ranks must emit nothing, watchdog for ranks left in a collective.",
+         "Lean 4 proof (arithmetic of slices, reduction trees, schedule independence) + MPI runs with layout perturbation", "§5 C04"),
  "C05": ("proof", "Lean 4 theorems: the family assembled by the approximate algorithms (a basis of the cycle space of the retained subgraph + for every dropped edge the edge plus a simple spanner path) is a basis of the cycle space of the caller's graph; every emitted id is an edge of the caller's graph (translated through the spanner edge map) and the returned value is the emitted weight under the caller's weights. Trace validation per run: spanner replay with the observed scan order, exact phase validated in the spanner's own ForestIndex coordinates against the literal support model, every edge cycle must be dropped-edge + a shortest spanner walk; descriptors are dereferenced through the caller's maps after return (ASan in the thorough tier); independent python oracle. The count m-n+c is checked per run (c05 count _partial: needs equality of component counts of spanner and graph).",
          "Lean 4 proof (private-edge independence/spanning argument) + trace validation", "§5 C05"),
  "C06": ("proof", "Lean 4 theorems: k = 0 is rejected with nothing emitted; k = 1 retains every edge of a simple graph so the run is the exact algorithm (C02: minimum basis); the spanner part is a minimum basis of the spanner; every dropped edge is closed by a cycle of weight <= 2k w(e). The global (2k-1) bound against every basis (Kavitha-Mehlhorn-Michail) is NOT proved (c06_bound_partial): it is checked per run against an independent optimum (python Horton-greedy) for k in 0..4.",
